@@ -62,6 +62,7 @@ func runC04(c *Config, r *Report) {
 	relabel(r, s, "R04.4")
 	c04R5(ic, r)
 	closureFrameCloned(ic, r, "R04.6")
+	cloneCopiesData(ic, r, "R04.6")
 	c01R8(ic, r, "R04.7", nil)
 	c04R8(ic, r)
 }
